@@ -256,6 +256,137 @@ def s_map(defn, mapped_variant):
     return f
 
 
+def s_transpose_res(ip, frame, bb, st, callee, args, dty):
+    # Result<Option<T>, E>::transpose -> Option<Result<T, E>>: Ok(None) -> None, Ok(Some(x)) -> Some(Ok(x)), Err(e) -> Some(Err(e))
+    out = []
+    for s2, var, pay in split_enum(ip, st, args[0], "transpose"):
+        if var == 1:
+            out.append((s2, mk(OPT, 1, mk(RES, 1, pay[0]))))
+        else:
+            for s3, v2, p2 in split_enum(ip, s2, pay[0], "transpose.inner"):
+                out.append((s3, mk(OPT, 1, mk(RES, 0, p2[0])) if v2 == 1 else mk(OPT, 0)))
+    return out
+
+
+def s_transpose_opt(ip, frame, bb, st, callee, args, dty):
+    # Option<Result<T, E>>::transpose -> Result<Option<T>, E>
+    out = []
+    for s2, var, pay in split_enum(ip, st, args[0], "transpose"):
+        if var == 0:
+            out.append((s2, mk(RES, 0, mk(OPT, 0))))
+        else:
+            for s3, v2, p2 in split_enum(ip, s2, pay[0], "transpose.inner"):
+                out.append((s3, mk(RES, 0, mk(OPT, 1, p2[0])) if v2 == 0 else mk(RES, 1, p2[0])))
+    return out
+
+
+def s_res_ok(ip, frame, bb, st, callee, args, dty):
+    return [(s2, mk(OPT, 1, pay[0]) if var == 0 else mk(OPT, 0)) for s2, var, pay in split_enum(ip, st, args[0], "ok")]
+
+
+def s_res_err(ip, frame, bb, st, callee, args, dty):
+    return [(s2, mk(OPT, 1, pay[0]) if var == 1 else mk(OPT, 0)) for s2, var, pay in split_enum(ip, st, args[0], "err")]
+
+
+def s_and_then(defn):
+    good = 0 if defn == RES else 1
+
+    def f(ip, frame, bb, st, callee, args, dty):
+        out = []
+        for s2, var, pay in split_enum(ip, st, args[0], "and_then"):
+            if var == good:
+                out.extend(ip.call_value(frame, bb, s2, args[1], [pay[0]], dty))
+            else:
+                out.append((s2, VEnum(defn, Lin.const(var), {var: pay})))
+        return out
+    return f
+
+
+def s_or_else(defn):
+    good = 0 if defn == RES else 1
+
+    def f(ip, frame, bb, st, callee, args, dty):
+        out = []
+        for s2, var, pay in split_enum(ip, st, args[0], "or_else"):
+            if var == good:
+                out.append((s2, VEnum(defn, Lin.const(var), {var: pay})))
+            else:
+                out.extend(ip.call_value(frame, bb, s2, args[1], list(pay), dty))
+        return out
+    return f
+
+
+def s_unwrap_or(defn, lazy):
+    good = 0 if defn == RES else 1
+
+    def f(ip, frame, bb, st, callee, args, dty):
+        out = []
+        for s2, var, pay in split_enum(ip, st, args[0], "unwrap_or"):
+            if var == good:
+                out.append((s2, pay[0]))
+            elif lazy:
+                out.extend(ip.call_value(frame, bb, s2, args[1], list(pay), dty))
+            else:
+                out.append((s2, args[1]))
+        return out
+    return f
+
+
+def s_ok_or_else(ip, frame, bb, st, callee, args, dty):
+    out = []
+    for s2, var, pay in split_enum(ip, st, args[0], "ok_or_else"):
+        if var == 1:
+            out.append((s2, mk(RES, 0, pay[0])))
+        else:
+            for s3, v in ip.call_value(frame, bb, s2, args[1], [], ty_args(dty)[1]):
+                out.append((s3, mk(RES, 1, v)))
+    return out
+
+
+def s_map_or(defn, lazy):
+    good = 0 if defn == RES else 1
+
+    def f(ip, frame, bb, st, callee, args, dty):
+        out = []
+        for s2, var, pay in split_enum(ip, st, args[0], "map_or"):
+            if var == good:
+                out.extend(ip.call_value(frame, bb, s2, args[2], [pay[0]], dty))
+            elif lazy:
+                out.extend(ip.call_value(frame, bb, s2, args[1], list(pay), dty))
+            else:
+                out.append((s2, args[1]))
+        return out
+    return f
+
+
+def s_is_and(defn):
+    good = 0 if defn == RES else 1
+
+    def f(ip, frame, bb, st, callee, args, dty):
+        out = []
+        for s2, var, pay in split_enum(ip, st, args[0], "is_some_and"):
+            if var == good:
+                out.extend(ip.call_value(frame, bb, s2, args[1], [pay[0]], dty))
+            else:
+                out.append((s2, FALSE))
+        return out
+    return f
+
+
+def s_opt_copied(ip, frame, bb, st, callee, args, dty):
+    out = []
+    for s2, var, pay in split_enum(ip, st, args[0], "copied"):
+        if var == 1:
+            out.append((s2, mk(OPT, 1, deref(ip, s2, pay[0]))))
+        else:
+            out.append((s2, mk(OPT, 0)))
+    return out
+
+
+def s_expect(ip, frame, bb, st, callee, args, dty):
+    return s_unwrap(ip, frame, bb, st, callee, args[:1], dty)
+
+
 # ====================================================================== iterators
 
 def s_array_into_iter(ip, frame, bb, st, callee, args, dty):
@@ -518,6 +649,139 @@ def s_first(ip, frame, bb, st, callee, args, dty):
         out.append((a, mk(OPT, 0)))
     if b is not None:
         out.append((b, mk(OPT, 1, VRef(sl.root, sl.steps + (("ix", sl.start),), False))))
+    return out
+
+
+def s_last(ip, frame, bb, st, callee, args, dty):
+    sl = as_slice(ip, st, args[0])
+    a, b = fork_cmp(st, "Eq", sl.n, Lin.const(0))
+    out = []
+    if a is not None:
+        out.append((a, mk(OPT, 0)))
+    if b is not None:
+        out.append((b, mk(OPT, 1, VRef(sl.root, sl.steps + (("ix", sl.start + sl.n - 1),), False))))
+    return out
+
+
+def _tuple(*vals):
+    return VAgg("tuple", None, list(vals))
+
+
+def s_split_first(ip, frame, bb, st, callee, args, dty):
+    # <[T]>::split_first: None for an empty slice, else Some((&s[0], &s[1..]))
+    sl = as_slice(ip, st, args[0])
+    a, b = fork_cmp(st, "Eq", sl.n, Lin.const(0))
+    out = []
+    if a is not None:
+        out.append((a, mk(OPT, 0)))
+    if b is not None:
+        out.append((b, mk(OPT, 1, _tuple(VRef(sl.root, sl.steps + (("ix", sl.start),), sl.mut),
+                                         VSlice(sl.root, sl.steps, sl.start + 1, sl.n - 1, sl.mut)))))
+    return out
+
+
+def s_split_last(ip, frame, bb, st, callee, args, dty):
+    sl = as_slice(ip, st, args[0])
+    a, b = fork_cmp(st, "Eq", sl.n, Lin.const(0))
+    out = []
+    if a is not None:
+        out.append((a, mk(OPT, 0)))
+    if b is not None:
+        out.append((b, mk(OPT, 1, _tuple(VRef(sl.root, sl.steps + (("ix", sl.start + sl.n - 1),), sl.mut),
+                                         VSlice(sl.root, sl.steps, sl.start, sl.n - 1, sl.mut)))))
+    return out
+
+
+def s_split_at(ip, frame, bb, st, callee, args, dty):
+    # <[T]>::split_at(mid): panics unless mid <= len
+    sl = as_slice(ip, st, args[0])
+    mid = args[1].lin
+    if not require(ip, frame, bb, st, "IDX", "Le", mid, sl.n, "split_at mid<=len"):
+        return []
+    return [(st, _tuple(VSlice(sl.root, sl.steps, sl.start, mid, sl.mut), VSlice(sl.root, sl.steps, sl.start + mid, sl.n - mid, sl.mut)))]
+
+
+def s_split_at_checked(ip, frame, bb, st, callee, args, dty):
+    sl = as_slice(ip, st, args[0])
+    mid = args[1].lin
+    a, b = fork_cmp(st, "Le", mid, sl.n)
+    out = []
+    if a is not None:
+        out.append((a, mk(OPT, 1, _tuple(VSlice(sl.root, sl.steps, sl.start, mid, sl.mut),
+                                         VSlice(sl.root, sl.steps, sl.start + mid, sl.n - mid, sl.mut)))))
+    if b is not None:
+        out.append((b, mk(OPT, 0)))
+    return out
+
+
+def s_slice_get(ip, frame, bb, st, callee, args, dty):
+    # <[T]>::get(idx | range): None when out of bounds
+    sl = as_slice(ip, st, args[0])
+    out = []
+    if isinstance(args[1], VInt):
+        i = args[1].lin
+        a, b = fork_cmp(st, "Lt", i, sl.n)
+        if a is not None:
+            out.append((a, mk(OPT, 1, VRef(sl.root, sl.steps + (("ix", sl.start + i),), sl.mut))))
+        if b is not None:
+            out.append((b, mk(OPT, 0)))
+        return out
+    s_, e_ = range_bounds(ip, st, args[1], sl.n)
+    a, b = fork_cmp(st, "Le", s_, e_)
+    if a is not None:
+        a2, b2 = fork_cmp(a, "Le", e_, sl.n)
+        if a2 is not None:
+            out.append((a2, mk(OPT, 1, VSlice(sl.root, sl.steps, sl.start + s_, e_ - s_, sl.mut))))
+        if b2 is not None:
+            out.append((b2, mk(OPT, 0)))
+    if b is not None:
+        out.append((b, mk(OPT, 0)))
+    return out
+
+
+def _array_len(ip, st, frame, aty):
+    ln = aty["len"]
+    if ln.get("ck") == "param":
+        return ip.const_param(st, ln["name"], frame)
+    return Lin.const(ln["v"])
+
+
+def _array_view(ip, st, sl, n, ety):
+    root = ip.new_oid("arrayview")
+    c = st.const_of(n)
+    if c is not None and c <= 16:
+        st.mem[root] = VArr([slice_elem(ip, st, VSlice(sl.root, sl.steps, sl.start, n, sl.mut), Lin.const(i)) for i in range(c)])
+    else:
+        st.mem[root] = VArrS(ety, n)
+    return VRef(root, (), False)
+
+
+def s_first_chunk(ip, frame, bb, st, callee, args, dty):
+    # <[T]>::first_chunk::<N>: Some(&s[..N] as &[T; N]) iff len >= N
+    sl = as_slice(ip, st, args[0])
+    okty = ty_args(dty)[0]
+    n = _array_len(ip, st, frame, okty["to"])
+    a, b = fork_cmp(st, "Ge", sl.n, n)
+    out = []
+    if a is not None:
+        out.append((a, mk(OPT, 1, _array_view(ip, a, sl, n, okty["to"]["of"]))))
+    if b is not None:
+        out.append((b, mk(OPT, 0)))
+    return out
+
+
+def s_split_first_chunk(ip, frame, bb, st, callee, args, dty):
+    sl = as_slice(ip, st, args[0])
+    tup = ty_args(dty)[0]
+    aty = tup["elems"][0] if "elems" in tup else tup["tys"][0]
+    n = _array_len(ip, st, frame, aty["to"])
+    a, b = fork_cmp(st, "Ge", sl.n, n)
+    out = []
+    if a is not None:
+        out.append((a, mk(OPT, 1, _tuple(_array_view(ip, a, sl, n, aty["to"]["of"]),
+                                         VSlice(sl.root, sl.steps, sl.start + n, sl.n - n, sl.mut)))))
+    if b is not None:
+        out.append((b, mk(OPT, 0)))
     return out
 
 
@@ -842,6 +1106,7 @@ def install(ip):
     E["<T as std::convert::Into<U>>::into"] = s_into
     E["<T as std::convert::TryInto<U>>::try_into"] = s_try_into
     E["<I as std::iter::IntoIterator>::into_iter"] = s_identity
+    E["std::iter::Iterator::by_ref"] = s_identity
     E["std::result::Result::<T, E>::unwrap"] = s_unwrap
     E["std::option::Option::<T>::unwrap"] = s_unwrap
     E["std::option::Option::<T>::is_some"] = s_is_variant(1)
@@ -849,6 +1114,29 @@ def install(ip):
     E["std::result::Result::<T, E>::is_err"] = s_is_variant(1)
     E["std::result::Result::<T, E>::is_ok"] = s_is_variant(0)
     E["std::option::Option::<T>::ok_or"] = s_ok_or
+    E["std::option::Option::<T>::ok_or_else"] = s_ok_or_else
+    E["std::result::Result::<std::option::Option<T>, E>::transpose"] = s_transpose_res
+    E["std::option::Option::<std::result::Result<T, E>>::transpose"] = s_transpose_opt
+    E["std::result::Result::<T, E>::ok"] = s_res_ok
+    E["std::result::Result::<T, E>::err"] = s_res_err
+    E["std::result::Result::<T, E>::and_then"] = s_and_then(RES)
+    E["std::option::Option::<T>::and_then"] = s_and_then(OPT)
+    E["std::result::Result::<T, E>::or_else"] = s_or_else(RES)
+    E["std::option::Option::<T>::or_else"] = s_or_else(OPT)
+    E["std::result::Result::<T, E>::unwrap_or"] = s_unwrap_or(RES, False)
+    E["std::option::Option::<T>::unwrap_or"] = s_unwrap_or(OPT, False)
+    E["std::result::Result::<T, E>::unwrap_or_else"] = s_unwrap_or(RES, True)
+    E["std::option::Option::<T>::unwrap_or_else"] = s_unwrap_or(OPT, True)
+    E["std::result::Result::<T, E>::map_or"] = s_map_or(RES, False)
+    E["std::option::Option::<T>::map_or"] = s_map_or(OPT, False)
+    E["std::result::Result::<T, E>::map_or_else"] = s_map_or(RES, True)
+    E["std::option::Option::<T>::map_or_else"] = s_map_or(OPT, True)
+    E["std::option::Option::<T>::is_some_and"] = s_is_and(OPT)
+    E["std::result::Result::<T, E>::is_ok_and"] = s_is_and(RES)
+    E["std::option::Option::<&T>::copied"] = s_opt_copied
+    E["std::option::Option::<&T>::cloned"] = s_opt_copied
+    E["std::result::Result::<T, E>::expect"] = s_expect
+    E["std::option::Option::<T>::expect"] = s_expect
     E["std::option::Option::<T>::map"] = s_map(OPT, 1)
     E["std::result::Result::<T, E>::map"] = s_map(RES, 0)
     E["std::result::Result::<T, E>::map_err"] = s_map(RES, 1)
@@ -889,6 +1177,14 @@ def install(ip):
     E["core::slice::<impl [T]>::len"] = s_len
     E["core::slice::<impl [T]>::is_empty"] = s_is_empty
     E["core::slice::<impl [T]>::first"] = s_first
+    E["core::slice::<impl [T]>::last"] = s_last
+    E["core::slice::<impl [T]>::split_first"] = s_split_first
+    E["core::slice::<impl [T]>::split_last"] = s_split_last
+    E["core::slice::<impl [T]>::split_at"] = s_split_at
+    E["core::slice::<impl [T]>::split_at_checked"] = s_split_at_checked
+    E["core::slice::<impl [T]>::get"] = s_slice_get
+    E["core::slice::<impl [T]>::first_chunk"] = s_first_chunk
+    E["core::slice::<impl [T]>::split_first_chunk"] = s_split_first_chunk
     E["core::slice::index::<impl std::ops::Index<I> for [T]>::index"] = s_index
     E["core::slice::index::<impl std::ops::IndexMut<I> for [T]>::index_mut"] = s_index
     E["std::array::<impl std::ops::Index<I> for [T; N]>::index"] = s_index
